@@ -406,9 +406,18 @@ fn c11_pass(sink: &mut Sink, rng: &mut Rng, thorough: bool) {
         Err(e) => format!("err {}", e),
       }));
       sink.count("direct:st-ascii");
+      // tie to the text model: the real reader on the real (folded) text = the model reader
+      let hx: String = t.as_bytes().iter().map(|b| format!("{:02x}", b)).collect();
+      sink.emit(&format!("st_ascii_dec 64 {}", hx), &a, nontrivial);
       if a != expect {
         sink.impl_failures.push(format!("st-ascii-roundtrip: {} -> {:?} -> {}", expect, t, a));
       }
+    }
+    // unfolded text: the real writer's bytes = the model's text
+    let mut t = Vec::new();
+    if (&moc2).into_range_moc2_iter().into_cellcellrange_moc2_iter().to_ascii_ivoa(None, false, &mut t).is_ok() {
+      let hx: String = t.iter().map(|b| format!("{:02x}", b)).collect();
+      sink.emit(&format!("st_ascii_enc 64 {} {} {}", moc2.depth_max_1(), moc2.depth_max_2(), txt), &hx, nontrivial);
     }
     // ---- JSON
     let mut t = Vec::new();
